@@ -100,7 +100,7 @@ type obsCase struct {
 	Which2 int        `json:"which2,omitempty"`
 	Twin   string     `json:"twin,omitempty"` // mutation applied to the rebuilt twin: "", cell, name, type, order, same
 	// congruence: operation index applied to frame and twin
-	CongOp int `json:"cong_op,omitempty"`
+	CongOp int  `json:"cong_op,omitempty"`
 	Cong   bool `json:"cong,omitempty"`
 }
 
@@ -588,9 +588,14 @@ func c09BigFrame() qframe.QFrame {
 	fs := make([]float64, n)
 	for i := range is {
 		is[i] = (i * 37) % 61
-		if i%7 == 3 {
+		switch {
+		case i%7 == 3:
 			fs[i] = math.NaN()
-		} else {
+		case i%11 == 5:
+			fs[i] = 9223372036854775808 * float64(1+i%3) // whole numbers beyond the int64 range
+		case i%13 == 6:
+			fs[i] = -9.5e18
+		default:
 			fs[i] = float64(i) / 4
 		}
 		if i%5 != 2 {
@@ -814,7 +819,13 @@ func samePath(a, b []histStep) bool {
 
 func init() {
 	core.Register(&core.Check{
-		ID:    "C09",
+		ID: "C09",
+		Setup: func() {
+			for i := 0; i < 4; i++ {
+				c09Family(i, 3)
+			}
+			c09BigFrame()
+		},
 		Level: "model_checking",
 		Rule: "frames = every non-error frame reachable from 4 initial frames by <= D steps of the C01 operation alphabet (arbitrary physical indexes), plus every physical permutation of the 5-row and 4-row initial frames and a 60-row frame. Per frame: Len, ColumnNames/Types/TypeMap/Contains, view Len/Slice vs ItemAt, ToCSV (parsed by a reference RFC 4180 parser), ToJSON (token stream), String (fixed-width parse) all compared with the typed views; " +
 			"Equals vs cell-wise model equality and symmetry on the frame's New-rebuilt twin and six mutated twins (one cell / name / type / column order / enum declared in another order with the same cells / enum codes preserved but strings swapped), on every ordered pair of frames within depth P, and congruence (Equal twins give Equal results) under every frame operation. " +
